@@ -591,6 +591,13 @@ def ft4(F, R):
             # same range for read and write
             rng_r = find_sub(env["$src"], ("call", "RangeInclusive::new", ["$a", "$b"]))
             rng_w = find_sub(dst, ("call", "RangeInclusive::new", ["$a", "$b"]))
+            if rng_r is None or rng_w is None or rng_r != rng_w:
+                # the same window however it is sliced (`o..=o+3`, `o..o+4`, `o..end` with end = o + 4): start and length as polynomials
+                from .rules_walk import slice_window
+                from .poly import peq as _peq
+                wr_, ww_ = slice_window(env["$src"]), slice_window(dst)
+                if wr_ is not None and ww_ is not None and wr_[2] is not None and ww_[2] is not None and _peq(wr_[1], ww_[1]) and _peq(wr_[2], ww_[2]):
+                    rng_r = rng_w = ("same-window",)
             R.require(rng_r is not None and rng_w is not None and rng_r == rng_w, fn, "fat32:same-range", "read and write of the FAT32 entry use different byte ranges", fn.loc(b))
     # special value tables, decided by value: for each special cluster number (and one ordinary one) the tests of new_value are
     # decided and the definition of the entry that reaches the write is read off - match, if-chain, helper function alike
@@ -1304,20 +1311,32 @@ def is2(F, R):
     fv = fat_views(fn)["Fat32"]
     wbs = [b for b, t in fv.calls() if call_matches(t, ("BlockCache::write_back", "BlockCache::write_back_with_duplicate"))]
     dry = fv.reach([0], cut_blocks=wbs)
+    def _opt_field(q):
+        """the field an Option-typed term is (a copy of): (*self).free_clusters_count, or a local `let free = self.free_clusters_count`"""
+        q = strip_refs(q)
+        for _k in range(3):
+            if q[0] == "var":
+                ds_ = var_def_terms(fv, q[1])
+                if len(ds_) != 1:
+                    return None
+                q = strip_refs(ds_[0])
+        return last_field(q) if q[0] == "place" else None
+
     def unknown(field):
         def pred(g):
             t_ = strip_refs(g.term)
-            if g.kind == "bool" and g.truth is True and t_[0] == "call" and t_[1] and t_[1].endswith("::is_none") and last_field(strip_refs(t_[2][0])) == field:
+            if g.kind == "bool" and g.truth is True and t_[0] == "call" and t_[1] and t_[1].endswith("::is_none") and _opt_field(t_[2][0]) == field:
                 return True
-            if g.kind == "bool" and g.truth is False and t_[0] == "call" and t_[1] and t_[1].endswith("::is_some") and last_field(strip_refs(t_[2][0])) == field:
+            if g.kind == "bool" and g.truth is False and t_[0] == "call" and t_[1] and t_[1].endswith("::is_some") and _opt_field(t_[2][0]) == field:
                 return True
-            return g.kind == "variant" and g.variant == "None" and t_[0] == "place" and last_field(t_) == field
+            return g.kind == "variant" and g.variant == "None" and _opt_field(t_) == field
         return pred
     from .ev import implying_edges
     for (b, i, v) in ok_returns(fv):
         if b not in dry:
             continue
-        okq = all(fv.unreachable_without(b, list(implying_edges(fv, unknown(fld)))) for fld in ("free_clusters_count", "next_free_cluster"))
+        # (on the ways that avoid the write-back: the return itself may be shared with the writing path)
+        okq = all(b not in fv.reach([0], cut_edges=list(implying_edges(fv, unknown(fld))), cut_blocks=wbs) for fld in ("free_clusters_count", "next_free_cluster"))
         R.require(okq, fn, "written-unless-unknown", "on FAT32 update_info_sector can return Ok without writing the record although a free count / hint is known (a shortcut of its own decides that nothing changed)", fn.loc(b, i))
     rms = [(b, t) for b, t in fn.calls() if call_matches(t, ("BlockCache::read_mut",))]
     okloc = False
@@ -1651,7 +1670,8 @@ def is4(F, R):
                     continue
                 R.bad(f, "count-variant-test", "control flow depends on %r" % g, f.loc(gb))
                 continue
-            if f.npath == FATVOL + "::update_info_sector" and g.kind == "bool" and g.term[0] == "call" and g.term[1] and g.term[1].endswith("Option::is_none"):
+            if g.kind == "bool" and g.term[0] == "call" and g.term[1] and g.term[1].endswith(("Option::is_none", "Option::is_some", "Option::<T>::is_none", "Option::<T>::is_some")) and len(g.term[2]) == 1:
+                # known / unknown is not the *value* of the count: `x.is_none()` / `x.is_some()` is the Some/None test spelled as a call
                 continue
             R.bad(f, "count-influences-control", "control flow depends on the stored free-cluster count (%r): a stale record could make an operation fail" % g, f.loc(gb))
     R.ok(None, "count-guards", "%d guards mention free_clusters_count; all are Some/None tests" % n)
